@@ -90,7 +90,7 @@ def gen(seed, tier):
             b = _add_residue(rng, a, d + 1, db, n)
         else:
             b = copy.deepcopy(a)
-        op = rng.choice(["eq", "eq", "eq", "teq", "isempty", "count", "nonempty"])
+        op = rng.choice(["eq", "eq", "eq", "teq", "teq", "isempty", "count", "tcount", "nonempty"])
         case = {"prop": PROP, "op": op, "d": d, "da": da, "a": a, "kind": kind}
         if op in ("eq", "teq"):
             case.update({"db": db, "b": b})
@@ -100,6 +100,19 @@ def gen(seed, tier):
             if rng.random() < 0.3:
                 idsB[rng.randrange(len(idsB))] = "X"
             case.update({"idsA": ids, "idsB": idsB, "kind": "owned"})
+            # declared shapes are not content: equal trees under different declared shapes stay equal
+            for key in ("shapeA", "shapeB"):
+                if rng.random() < 0.5:
+                    case[key] = [n + rng.randrange(0, 4) for _ in range(d + 1)]
+        if op == "tcount":
+            # the tensor-level count, also after sub-fibers entered the tree through the fiber interface
+            # (append / position assignment), which the count must see because it is defined by the tree
+            case["kind"] = "owned"
+            r2 = rng.random()
+            if d >= 1 and r2 < 0.3:
+                case["mut"] = ["append", n + 1, H.gen_tree(rng, d, n, (1, 2, -3, 7, 0), da)]
+            elif d >= 1 and a and r2 < 0.6:
+                case["mut"] = ["setitem", rng.randrange(len(a)), H.gen_tree(rng, d, n, (1, 2, -3, 7, 0), da)]
         yield case
 
 
@@ -115,7 +128,8 @@ def run(case):
     objs, tensors = [fa], []
     ta = tb = None
     if case["kind"] == "owned":
-        ta = ft.Tensor.fromFiber(rank_ids=case.get("idsA", [f"R{d - k}" for k in range(d + 1)]), fiber=fa, default=da)
+        ta = ft.Tensor.fromFiber(rank_ids=case.get("idsA", [f"R{d - k}" for k in range(d + 1)]), fiber=fa, default=da,
+                                 shape=case.get("shapeA"))
         tensors.append(ta)
         fa = ta.getRoot()
         objs = [fa]
@@ -123,10 +137,19 @@ def run(case):
     if "b" in case:
         fb = H.build_fiber(case["b"], d + 1, case["db"])
         if case["kind"] == "owned":
-            tb = ft.Tensor.fromFiber(rank_ids=case.get("idsB", [f"R{d - k}" for k in range(d + 1)]), fiber=fb, default=case["db"])
+            tb = ft.Tensor.fromFiber(rank_ids=case.get("idsB", [f"R{d - k}" for k in range(d + 1)]), fiber=fb, default=case["db"],
+                                     shape=case.get("shapeB"))
             tensors.append(tb)
             fb = tb.getRoot()
         objs.append(fb)
+    if op == "tcount" and case.get("mut"):
+        kind_, where, sub = case["mut"]
+        subf = H.build_fiber(sub, d, da)
+        if kind_ == "append":
+            fa.append(where, subf)
+        else:
+            fa[where] = subf
+        case["a"] = H.snapshot(fa)
     before = ([H.snapshot(o) for o in objs], [_ranks(t) for t in tensors])
     side = {}
     if op == "eq":
@@ -142,6 +165,9 @@ def run(case):
         case["impl"] = bool(fa.isEmpty())
     elif op == "count":
         case["impl"] = int(fa.countValues())
+    elif op == "tcount":
+        case["impl"] = int(ta.countValues())
+        side["agrees_with_root_count"] = case["impl"] == int(ta.getRoot().countValues())
     elif op == "nonempty":
         res = fa.nonEmpty()
         case["impl"] = H.snapshot(res)
